@@ -4,7 +4,9 @@ Decided: the success exits of server selection and of every share-holder
 removal carry the happiness comparison on the layout that is actually used;
 the threshold reaches both comparisons from the encoding parameters; failure
 paths abort what was allocated; every remote write of the Encoder is wired to
-_remove_shareholder and a failure reaches Encoder.err (DESIGN.md section 5, C06)."""
+_remove_shareholder and a failure reaches Encoder.err; the share-holder proxy (WriteBucketProxy) hands the
+outcome of every remote write to that wiring and closes a share only after its last write succeeded
+(DESIGN.md section 5, C06)."""
 from sa.h import *
 
 EXPLANATION = (
@@ -22,9 +24,16 @@ EXPLANATION = (
     "_gather_responses propagates the first failure (DeferredList fireOnOneErrback, eater added afterwards), every "
     "push stage returns the gathered Deferred, Encoder.start runs all stages, close last, and ends with "
     "addCallbacks(done, err) with no earlier failure handler; (7) Encoder.err aborts every remaining landlord and "
-    "returns a failure; the placed-share set reported is the set of surviving landlords. "
+    "returns a failure; the placed-share set reported is the set of surviving landlords; "
+    "(8) in WriteBucketProxy (the object behind self.landlords[i]) the Deferred of every remote call made by "
+    "put_*/close and their helpers (callRemote, effectful self-calls, callbacks with a remote call) is part of the "
+    "Deferred returned to the Encoder on every path, and no errback/addBoth/plain DeferredList on the way replaces "
+    "its failure, so that (4) really observes a failed write; (9) WriteBucketProxy.close flushes the buffered tail "
+    "unless no bytes are queued and sends callRemote('close') only from a success callback of (or after awaiting) "
+    "the Deferred of that final write, so a share is finalised and counted only when complete. "
     "Undecided: the value computed by servers_of_happiness (C08), server-side deletion on abort (C22), "
-    "interleavings of responses.")
+    "interleavings of responses, the byte accounting of _WriteBuffer (that 'queued bytes == 0' really means "
+    "everything was sent), proxies other than WriteBucketProxy and its subclasses.")
 TECHNIQUE = "static analysis: CFG x typestate monitor for the happiness gate, Deferred-chain discipline, positional agreement"
 
 SEL = "immutable.upload:Tahoe2ServerSelector"
@@ -448,16 +457,46 @@ class ProxyFlow:
                                  "an incomplete share is counted as placed" % (short(fi), src(fi, rc), what))
 
     # -- delivery
+    def climb(self, fi, e):
+        """`e if c else other`: the value of the conditional expression is (on one branch) e."""
+        pm = self.pm(fi)
+        while True:
+            p = pm.get(id(e))
+            if isinstance(p, ast.IfExp) and (p.body is e or p.orelse is e):
+                e = p
+            else:
+                return e
+
+    def carries(self, fi, e, v, defs, depth=0):
+        """The value of e is the Deferred held in local v: v itself, a copy, a callback chain on it (addCallback
+        returns its receiver), or an aggregate (gatherResults / DeferredList) with it as an element."""
+        if depth > 6 or e is None:
+            return False
+        if isinstance(e, ast.Name):
+            if e.id == v:
+                return True
+            return any(self.carries(fi, x, v, defs, depth + 1) for x in defs.get(e.id, []))
+        if isinstance(e, ast.IfExp):
+            return self.carries(fi, e.body, v, defs, depth + 1) or self.carries(fi, e.orelse, v, defs, depth + 1)
+        if isinstance(e, (ast.List, ast.Tuple)):
+            return any(self.carries(fi, x, v, defs, depth + 1) for x in e.elts)
+        if isinstance(e, ast.Call):
+            if isinstance(e.func, ast.Attribute) and e.func.attr in REGS:
+                return self.carries(fi, e.func.value, v, defs, depth + 1)
+            if call_tail(e) in AGGREGATES and e.args:
+                return self.carries(fi, e.args[0], v, defs, depth + 1)
+        return False
+
     def deliver(self, fi, e, what):
         pm = self.pm(fi)
         chain, outer = chained_regs(pm, e)
         self.check_handlers(fi, chain, what)
+        outer = self.climb(fi, outer)
         p = pm.get(id(outer))
         if isinstance(p, ast.Return):
             return
         if isinstance(p, (ast.Await, ast.Yield)):
-            if any(isinstance(x, ast.Try) for x in func_own_nodes(fi)):
-                raise AnalysisError("%s: %s is awaited inside a function with try blocks (not modelled)" % (short(fi), what))
+            self.awaited(fi, outer, what)
             return
         if isinstance(p, ast.Assign) and p.value is outer and len(p.targets) == 1 and isinstance(p.targets[0], ast.Name):
             return self.var_flow(fi, p.targets[0].id, self.node_of(fi, outer), what)
@@ -485,6 +524,19 @@ class ProxyFlow:
         raise AnalysisError("%s: the Deferred of %s is used in a context that is not modelled: %s" % (
             short(fi), what, src(fi, p)))
 
+    def awaited(self, fi, outer, what=""):
+        """`yield e` / `await e` in a coroutine: a failure of e is raised at that point and (without try
+        blocks) fails the coroutine's Deferred; what follows runs only after e succeeded."""
+        p = self.pm(fi).get(id(outer))
+        if not isinstance(p, (ast.Await, ast.Yield)):
+            return False
+        coroutine = isinstance(fi.node, ast.AsyncFunctionDef) or any(
+            (attr_path(d) or "").split(".")[-1] == "inlineCallbacks" for d in fi.decorators())
+        if not coroutine or any(isinstance(x, ast.Try) for x in func_own_nodes(fi)):
+            raise AnalysisError("%s: %s is yielded/awaited outside a plain inlineCallbacks/async body (not modelled)"
+                                % (short(fi), what))
+        return True
+
     def var_flow(self, fi, v, start, what):
         cfg = fi.cfg()
         self.check_handlers(fi, [(reg.kind, reg.call) for reg in registrations(fi, var=v)], what)
@@ -493,14 +545,14 @@ class ProxyFlow:
         def ret_v(n):
             if not (is_return(n) and n.ast.value is not None):
                 return False
-            return v in depends_on(fi, n.ast.value, defs=defs)
+            return self.carries(fi, n.ast.value, v, defs)
 
         def lost(n):
             if n.kind == "exit":
                 return True
             if n.kind == "stmt" and v in node_stores(n) and n is not start:
                 val = assign_value(n, v)
-                return val is None or v not in depends_on(fi, val, defs=defs)
+                return val is None or not self.carries(fi, val, v, defs)
             return False
         for w in must_pass(cfg, start, lambda l: l != "exc", ret_v, lost):
             self.r.violation(fi, fi.loc(start.ast), "%s: the Deferred of %s (in %s) is not part of the value returned "
@@ -1166,9 +1218,16 @@ def run(ctx: Context):
                 r.site(kfi, kc, "remote close")
                 for (wfi, wchain, wc) in W:
                     wname = call_name(wc) or call_tail(wc)
-                    # the unit of the write must enclose the unit of the close
-                    if kfi is wfi or len(kchain) <= len(wchain) or any(a[1] is not b[1] for a, b in zip(kchain, wchain)):
-                        if kfi is wfi or [x[1] for x in kchain] == [x[1] for x in wchain[:len(kchain)]]:
+                    # the unit of the write must properly enclose the unit of the close
+                    ksubs, wsubs = [x[1] for x in kchain], [x[1] for x in wchain]
+                    if not (len(ksubs) > len(wsubs) and ksubs[:len(wsubs)] == wsubs):
+                        if kfi is wfi and pf.awaited(kfi, chained_regs(pf.pm(kfi), wc)[1], wname):
+                            # coroutine style: `yield write` ... `yield close`; close must not come first
+                            kn, wn = pf.node_of(kfi, kc), pf.node_of(kfi, wc)
+                            if kn is not wn and not must_pass(kfi.cfg(), kn, lambda l: l != "exc", lambda n: False,
+                                                              lambda n, _wn=wn: n is _wn):
+                                continue
+                        if wsubs[:len(ksubs)] == ksubs:      # same unit, or the close's unit encloses the write's
                             r.violation(kfi, kfi.loc(kc), "%s sends callRemote('close') without waiting for the "
                                         "outcome of %s: the server finalises the share even when that write fails "
                                         "(incomplete share visible to readers / counted as placed)" % (short(cl), wname))
@@ -1179,6 +1238,7 @@ def run(ctx: Context):
                     att = pf.attachments(pfi, sub, node)
                     pm = pf.pm(pfi)
                     wchained, wouter = chained_regs(pm, wc)
+                    wouter = pf.climb(pfi, wouter)
                     wpar = pm.get(id(wouter))
                     wvar = wpar.targets[0].id if isinstance(wpar, ast.Assign) and len(wpar.targets) == 1 \
                         and isinstance(wpar.targets[0], ast.Name) and wpar.value is wouter else None
